@@ -3,6 +3,7 @@ import copy
 import itertools
 
 from harness.core import Property
+from harness.props import scalars_g6 as S
 
 KINDS = ("str", "strns", "int")
 NAME_POOL = ["a", "b", "c", "ab", "A", "B", "x", "y", "z", "a_b", "x_a", "x_b", "id", "k",
@@ -14,8 +15,12 @@ KEYFNS = [{"fn": "ident"}, {"fn": "upper"}, {"fn": "add", "p": "x_"}, {"fn": "st
 # ---------------------------------------------------------------- natives
 
 def nat_to_py(j):
+    """Values are written either in the compact form of the first C20 cases ({"s"|"i"|"b": ...}) or as
+    C04 natives ({"t": ...}: dates, times, floats, Decimals, ...)."""
     if j is None:
         return None
+    if "t" in j:
+        return S.nat_to_py(j)
     if "s" in j:
         return j["s"]
     if "i" in j:
@@ -24,15 +29,22 @@ def nat_to_py(j):
 
 
 def py_to_nat(v):
-    if v is None:
-        return None
-    if isinstance(v, bool):
-        return {"b": v}
-    if isinstance(v, int):
-        return {"i": v}
-    if isinstance(v, str):
-        return {"s": v}
-    raise AssertionError("unexpected native %r" % (type(v),))
+    """Observed values, in the form the model prints them."""
+    return S.out_nat(v)
+
+
+KIND_ALIASES = {"str": {"k": "string", "strip": True}, "strns": {"k": "string", "strip": False},
+                "int": {"k": "integer", "signed": True, "width": 0}}
+RICH_KINDS = [
+    {"k": "boolean_default"}, {"k": "date", "strip": True}, {"k": "time", "strip": True}, {"k": "datetime", "strip": False},
+    {"k": "integer", "signed": False, "width": 4},
+    {"k": "constrained", "enum": True, "child": {"k": "string", "strip": True},
+     "valid": {"v": "oneof", "vals": [{"t": "str", "v": "a"}, {"t": "str", "v": "b"}]}},
+]
+
+
+def kind_of(k):
+    return KIND_ALIASES[k] if isinstance(k, str) else k
 
 
 def keyfn_of(spec):
@@ -73,12 +85,7 @@ def rename_map(spec):
 # ---------------------------------------------------------------- real implementation
 
 def _kind_cls(kind):
-    import flatland
-    if kind == "str":
-        return flatland.String
-    if kind == "strns":
-        return flatland.String.using(strip=False)
-    return flatland.Integer
+    return S.kind_cls(kind_of(kind))
 
 
 def build_schema(case):
@@ -233,16 +240,16 @@ class C20(Property):
         "getters raising other exceptions, __slots__, read-only properties are not modelled",
         "key functions are arbitrary total functions Str -> Str in the theorems; the correspondence runs a fixed family "
         "(identity, ASCII upper, prefix add/strip, constant, reverse)",
-        "member.set(x).value is a parameter of the model (setF); the runner instantiates it for String(strip on/off) and Integer members "
-        "over None/str/int/bool values with an ASCII integer grammar",
+        "member.set(x).value is a parameter of the model (setF); the runner instantiates it with the scalar model of C04 "
+        "(String, Integer, Boolean, Date, Time, DateTime, Enum members; None/str/int/bool/float/Decimal/date/time/datetime values)",
         "Python's sorted() on distinct str keys = insertion sort by code point; dict insertion/overwrite semantics",
     ]
     assumptions = [
         "field names, include/omit members, rename keys and values are str; rename is a dict or a list of 2-tuples",
         "Dict (not SparseDict); members are scalars",
     ]
-    rule = ("Dict schemas of 1-5 String/String(strip=False)/Integer fields with names from a pool (ASCII, case variants, "
-            "prefix-related, non-ASCII), member values None/str/int/bool incl. padded and unadaptable; op in slice/update_object/"
+    rule = ("Dict schemas of 1-5 fields (70% String/String(strip=False)/Integer, 30% Boolean/Date/Time/DateTime/unsigned %04i Integer/Enum) with names from a pool (ASCII, case variants, "
+            "prefix-related, non-ASCII), member values None/str/int/bool incl. padded and unadaptable (rich kinds: kind-appropriate texts, floats, Decimals, native dates/times); op in slice/update_object/"
             "set_by_object/roundtrip; include/omit each None, [] or 1-3 names (known, unknown, overlapping rename; 8% both -> TypeError); "
             "rename None/{}/dict/pair list with sources and targets from fields+pool (collisions, chains, duplicate sources at low rate); "
             "key function None or one of 7; objects with plain/property-backed/raising/absent attributes; policy subset/strict/duck. "
@@ -294,6 +301,19 @@ class C20(Property):
                        "obj": copy.deepcopy(obj)}
 
     def _rand_value(self, rng, kind):
+        if not isinstance(kind, str):
+            import datetime as _dt
+            import decimal as _dec
+            from harness.props.c04 import appropriate_input
+            r = rng.random()
+            if r < 0.6:
+                v = appropriate_input(rng, kind)
+            else:
+                v = rng.choice([None, "x", "", 5, True, 2.5, _dec.Decimal("7.9"), _dt.date(2020, 1, 2), _dt.time(3, 4, 5),
+                                _dt.datetime(2020, 1, 2, 3, 4, 5), " a ", "2020-01-02", "03:04:05", "on"])
+            if isinstance(v, int) and not isinstance(v, bool) and abs(v) >= 10 ** 4000:
+                v = 7
+            return S.py_to_nat(v)
         if kind == "int":
             return rng.choice([None, {"i": 3}, {"i": -2}, {"i": 0}, {"s": "12"}, {"s": " 7 "}, {"s": "+5"}, {"s": "-40"},
                                {"s": "abc"}, {"s": ""}, {"b": True}, {"i": 10 ** 12}])
@@ -343,7 +363,7 @@ class C20(Property):
             present = rng.random() < 0.8
             if not prop and not present:
                 continue
-            kind = rng.choice(KINDS)
+            kind = rng.choice(KINDS) if rng.random() < 0.7 else rng.choice(RICH_KINDS)
             out.append({"name": n, "prop": prop, "present": present,
                         "value": self._rand_value(rng, kind) if present else None})
         return out
@@ -354,7 +374,7 @@ class C20(Property):
             names = rng.sample(NAME_POOL, nf)
             fields = []
             for nm in names:
-                kind = rng.choice(KINDS)
+                kind = rng.choice(KINDS) if rng.random() < 0.7 else rng.choice(RICH_KINDS)
                 fields.append({"name": nm, "kind": kind, "value": self._rand_value(rng, kind)})
             op = rng.choice(["slice", "slice", "update", "setby", "setby", "roundtrip"])
             case = {"op": op, "fields": fields, "policy": rng.choice(["subset"] * 8 + ["strict", "duck"])}
@@ -595,7 +615,11 @@ class C20(Property):
         return any(v is not None for _, v in (obs.get("value") or []))
 
     def tags(self, case, obs):
+        for f in case["fields"]:
+            if not isinstance(f["kind"], str):
+                pass
         t = ["op=" + case["op"], "exc=%s" % obs.get("exc"), "fields=%d" % len(case["fields"]),
+             "rich-kinds=%s" % any(not isinstance(f["kind"], str) for f in case["fields"]),
              "policy=" + case.get("policy", "subset")]
         for k in ("include", "omit"):
             v = case.get(k)
@@ -672,6 +696,8 @@ class C20(Property):
             if f["value"] not in (None, {"s": "v"}):
                 c = copy.deepcopy(case)
                 c["fields"][i]["value"] = {"s": "v"} if f["kind"] != "int" else {"i": 1}
+                if not isinstance(f["kind"], str):
+                    c["fields"][i]["kind"] = "str"
                 if c["fields"][i]["value"] != f["value"]:
                     yield c
             if f["kind"] != "str":
